@@ -1,0 +1,17 @@
+//go:build verif
+
+// Contracts for package worker (compiled only with -tags=verif; checked by /verif/bin/govc). Property C03:
+// "at no instant are more than num_workers target commands running".
+package worker
+
+// exactly maxWorkers worker goroutines are started
+//@ func (*TaskWorkerPool[T]).StartWorkers(twp, ctx) ()
+//@   ensures [spawned_exactly_max_workers] twp.maxWorkers >= 0 ==> workersSpawned == old(workersSpawned) + twp.maxWorkers
+//@ loop #1
+//@   invariant [count] 0 <= i && (twp.maxWorkers >= 0 ==> i <= twp.maxWorkers) && workersSpawned == old(workersSpawned) + i
+
+// a worker goroutine is, by definition, the context in which inWorker holds; it runs one task at a time: the next task
+// is taken from the job channel only after the previous task function has returned
+//@ func (*TaskWorkerPool[T]).worker(twp, ctx, workerId) ()
+//@   entry_assume [worker_context] inWorker
+//@   ghostset workersSpawned := workersSpawned + 1
